@@ -794,10 +794,10 @@ esl_sq_CreateDigitalFrom(const ESL_ALPHABET *abc, const char *name, const ESL_DS
 
   /* We assume we've created a complete sequence; set the coord bookkeeping accordingly. */
   sq->start  = 1;
-  sq->end    = n;
+  sq->end    = sq->n;		/* not <n>: the caller may have passed -1 for "length unknown" */
   sq->C      = 0;
-  sq->W      = n;
-  sq->L      = n;
+  sq->W      = sq->n;
+  sq->L      = sq->n;
 
   sq->salloc = sq->n+2;
   sq->abc    = abc;
